@@ -67,9 +67,26 @@ NOTES = {
  'C16-rc-borrow-unguarded': 'Rc variant: borrow() no longer registers with the RefCell, so a borrow_mut() is granted while a shared borrow is alive (reader first, writer second)',
  'C17-ptrmutex-try-lock': 'PtrMutex variant (static_mutex_reference!): try_lock instead of lock, panics under contention between threads',
  'C19-nostd-abs-positive-zero': 'builds without std: Quantity::abs(+0.0) returns -0.0 (visible through a reciprocal); rebased onto the tree with fix D5, which it led to',
+ 'C03-axle-skips-terminals-holding-same-command-value': 'axle: a terminal that already holds the same command VALUE is not rewritten, so it keeps the older stamp',
+ 'C05-pid-p-only-skips-reset': 'PID stream with ki == 0 and kd == 0: reset() returns early, so the cached output / error survives an absent input',
+ 'C09-command-read-borrows-partner-mutably': 'command (and combined) read of a connected terminal takes borrow_mut() of the partner: panics when a shared borrow of the partner is alive',
+ 'C10-derivative-interval-cache-u32-key': 'DerivativeStream caches seconds-per-interval keyed by `interval as u32`: two different consecutive intervals congruent mod 2^32 ns',
+ 'C11-set-during-error-skips-reset': 'CommandPID.set(different command) while an input error is held: the reset is skipped and get() keeps the stale error',
+ 'C13-geartrain-drops-commands-that-overflow': 'gear train does not relay a command whose scaled value overflows f32 (|v| above ~3e36): the far side keeps the old command',
+ 'C15-follow-holds-getter-borrow-across-set': 'update_following_data keeps its borrow of the followed getter while it calls set: an impl_set that mutably borrows that getter panics',
+ 'C20-pid-wrapper-clock-never-runs-backwards': 'PID wrapper clamps its clock to the last output time: a state stamped earlier than the previous update (late sample, or first state older than an opening command)',
  'C19-libm-powf-whole-exponent-squaring': 'no_std+libm only: powf with a whole-number exponent by repeated squaring (dozens of ulps for large |n|, 0 for subnormal results)',
 }
 HISTORY = {
+ 'C13-geartrain-drops-commands-that-overflow': 'MISSED at both tiers: command values came from the moderate pool, so no relayed value ever left the f32 range. 3 % of the commands are now '
+   'f32::MAX, +-1e37, -3e38, 3e36; the relay oracles treat an image beyond the f32 range as +-inf (no value comparison, stamp and kind still checked; a tie between an '
+   'overflowed and a finite copy counts as a conflict). Caught at quick tier since (bounded progress: the far side reads nothing).',
+ 'C10-derivative-interval-cache-u32-key': 'MISSED at both tiers: consecutive intervals were drawn independently, so two different intervals with equal low 32 bits had probability 2^-32. '
+   '3 % of the intervals are now the previous interval +- 2^32, 2^31, 2^33, 2^24 or 2^16 ns (what a cache or a narrowing cast keyed on the interval confuses). Caught at quick tier since.',
+ 'C09-command-read-borrows-partner-mutably': 'MISSED at both tiers: every read was made with no other borrow alive. After every operation each linked terminal is now read again while a '
+   'shared borrow of its partner is held (reading both ends of a link side by side is ordinary safe use): it must not panic and must return the same data. Caught at quick tier since.',
+ 'C15-follow-holds-getter-borrow-across-set': 'would have been MISSED (the extension was written after reading the author\'s report, before the first evaluation): the re-entrant motor only swapped '
+   'what it follows. It can now also (MRE 4) take a mutable borrow of the followed getters from inside impl_set, as a follower that acknowledges consumed setpoints would. Caught at quick tier.',
  'C19-nostd-abs-positive-zero': 'pointed at `Quantity::abs`, which the value-level API world called but never with a zero operand and never followed by a division. '
    'Extending the world (zeros of both signs and equal operands as regular operands; reciprocal of abs / of negation; division by a - a) reported a divergence on the '
    'UNCHANGED tree: abs(-0.0) kept its sign without std - genuine defect D5, repaired in /repo by a fix: commit. The author\'s change (abs(+0.0) = -0.0 without std) '
